@@ -99,7 +99,7 @@ def judge(case, r):
             continue
         stats["pairs"] += 1
         conf = IARF[st.get(rule, o.default)]
-        av_raw, av, flag = int(f[6]), int(f[7]), f[9] == "1"
+        av_raw, av, flag = int(f[6]), int(f[7]), False       # the exemption is the statement's (would the pair lex differently?), not uncrustify's own flag
         would_fuse = fuses(a, b, lang) or (WORDLIKE.match(a[-1:]) and WORDLIKE.match(b[:1]) and (a[-1:].isalnum() or a[-1:] == b"_") and (b[:1].isalnum() or b[:1] == b"_"))
         # the statement's own exemptions: 'return' / 'case' and an operand; a macro name (or the ')' of its parameter list) and the
         # token opening its body
